@@ -96,6 +96,18 @@ def compare(obs, ml, sim_mode=False):
         if len(ma) != len(obs['age_after']) or not all(close(a, b) for a, b in zip(ma, obs['age_after'])):
             return f"ages after update_post: impl={toks(obs['age_after'])} model={m['age']}"
         return None
+    if 'fin' in obs:
+        from fractions import Fraction
+        if m['st'] != 'ok': return f"finalize: model {m['st']}"
+        for k, vals in obs['fin'].items():
+            if vals is None: return f'finalize: the sim has no finalised series for {k}'
+            mv = [x.split(':', 1) for x in lst(m[k])]
+            if [int(t) for t, _ in mv] != [t for t, _ in vals]: return f'finalize: {k} steps impl={[t for t, _ in vals]} model={[t for t, _ in mv]}'
+            for (t, x), (_, q) in zip(vals, mv):
+                want = float(Fraction(q))
+                if abs(x - want) > max(abs(want), 1.0) / 2 ** 45:       # tolerance: one float rounding of count x pop_scale
+                    return f'finalize: published {k}[{t}] = {x!r}, model (recorded count x pop_scale) = {q} = {want!r}'
+        return None
     if obs['st'] != m['st']:
         return f"outcome: impl={obs['st']} ({obs.get('msg', '')}) model={m['st']}"
     if obs['st'] != 'ok': return None
@@ -326,7 +338,16 @@ def gen_sim_cfg(rng, k):
     for d in cfg['diseases']:
         if d['type'] == 'sir': d['p_death'] = rng.choice([0.05, 0.3, 0.8]); d['init_prev'] = 0.3
     cfg['n_agents'] = rng.choice([40, 80, 150])
+    scale_kw(rng, cfg)
     return cfg
+
+
+def scale_kw(rng, cfg):
+    """ the sim stands for a larger / smaller population: integer, dyadic and non-dyadic factors, given as pop_scale or as total_pop """
+    q = rng.random()
+    if q < 0.45: return
+    if q < 0.8: cfg['pop_scale'] = rng.choice([2.5, 1.75, 3, 0.5, 10.3, 1 / 3])
+    else: cfg['total_pop'] = int(cfg['n_agents'] * rng.choice([1.5, 2.7, 10.283])) + 1
 
 
 def route_uids(r):
@@ -435,6 +456,19 @@ def record_sim(cfg, extra_module=None):
         return w
 
     for k in orig: setattr(P, k, wrap(k))
+    fin = dict()
+    orig_finalize = ss.Sim.finalize
+
+    def finalize_w(self, *a, **kw):
+        # observe (do not alter) what finalisation does to every recorded series: values just before, values just after
+        if self is not state['sim']:
+            return orig_finalize(self, *a, **kw)
+        fin['pop_scale'] = float(self.pars.pop_scale)
+        fin['pre'] = results_snapshot(self)
+        out = orig_finalize(self, *a, **kw)
+        fin['post'] = results_snapshot(self)
+        return out
+    ss.Sim.finalize = finalize_w
     hooks = dict(disease_die=[], route_remove=[])
     state['hooks'] = hooks
     try:
@@ -462,7 +496,55 @@ def record_sim(cfg, extra_module=None):
         sim.run()
     finally:
         for k, f in orig.items(): setattr(P, k, f)
-    return dict(start=start, hist=hist, sim=sim, hooks=hooks)
+        ss.Sim.finalize = orig_finalize
+    return dict(start=start, hist=hist, sim=sim, hooks=hooks, finalize=fin)
+
+
+def results_snapshot(sim):
+    """ every recorded series of the sim and of its modules: {(owner, key): (values, scale flag, dtype kind)} """
+    import starsim as ss
+    out = {}
+    owners = [('sim', sim.results)] + [(m.name, m.results) for m in sim.modules]
+    for owner, results in owners:
+        for key, res in results.items():
+            if isinstance(res, ss.Result):
+                v = np.asarray(res.values if hasattr(res, 'values') else res)
+                out[(owner, key)] = (v.copy(), bool(getattr(res, 'scale', False)), v.dtype.kind)
+    return out
+
+
+def finalize_fails(rec, tr):
+    """ the recorded series AFTER the run: finalisation may only express them in people (x pop_scale), and the balance of
+        the property must hold in recorded units: n_alive[t] = n_alive[t-1] + (created - died in t) x pop_scale """
+    fin = rec.get('finalize') or {}
+    if 'post' not in fin: return []
+    fails = []; s = fin['pop_scale']
+    for (owner, key), (pre, scale, kind) in fin['pre'].items():
+        if (owner, key) not in fin['post']:
+            fails.append((dict(oracle='finalized-results', level='sim' if owner == 'sim' else 'module', how='missing'), f'the recorded series {owner}.{key} disappeared at finalisation')); continue
+        post = fin['post'][(owner, key)][0]
+        if kind not in 'iufb' or post.dtype.kind not in 'iufb' or post.shape != pre.shape: continue
+        if owner != 'sim' and not np.any(np.nan_to_num(pre.astype(float)) != 0):
+            continue      # a module series left empty during the run is derived at finalisation (cumulative sums, rates): not a recorded series
+        want = pre.astype(float) * s if scale else pre.astype(float)
+        bad = np.nonzero(~np.isclose(post.astype(float), want, rtol=1e-12, atol=0, equal_nan=True))[0]
+        if len(bad):
+            t = int(bad[0])
+            fails.append((dict(oracle='finalized-results', level='sim' if owner == 'sim' else 'module', how='scaled' if scale else 'unscaled'),
+                          f"after finalisation {owner}.{key}[{t}] = {post[t]!r} but the value recorded during the run was {pre[t]!r}"
+                          + (f' and pop_scale = {s!r} (expected {want[t]!r})' if scale else ' (a series that does not scale with the population)') + f'; {len(bad)} entries differ'))
+    na = fin['post'].get(('sim', 'n_alive'))
+    if na is not None and tr is not None:
+        v = na[0].astype(float)
+        for t in sorted(tr.flow):
+            if t - 1 not in tr.flow or t >= len(v): continue
+            created, died = tr.flow[t]
+            want = v[t - 1] + (created - died) * s
+            if not np.isclose(v[t], want, rtol=1e-9, atol=1e-9):
+                fails.append((dict(oracle='balance', units='recorded'),
+                              f'finalised results: n_alive[{t}] = {v[t]!r} != n_alive[{t - 1}] = {v[t - 1]!r} + (created {created} - died {died}) x pop_scale {s!r} = {want!r}'))
+                break
+    return fails
 
 
 def sim_lines(rec):
@@ -480,6 +562,15 @@ def sim_lines(rec):
         d = dict(st='ok', obs=e['obs'])
         if o == 'step_die': d['died'] = e['died']
         obs.append(d)
+    fin = rec.get('finalize') or {}
+    if 'post' in fin and rec['hist']:
+        # Sim.finalize: the published series against the model's scaling of what it recorded (exact rational factor of the float pop_scale)
+        from fractions import Fraction
+        fr = Fraction(fin['pop_scale'])
+        written = [t for t, _ in rec['hist'][-1]['obs']['nalive']]
+        lines.append(f'finalize {fr.numerator}/{fr.denominator}' if fr.denominator != 1 else f'finalize {fr.numerator}')
+        obs.append(dict(st='ok', fin={k: [(t, float(np.asarray(fin['post'][('sim', key)][0], dtype=float)[t])) for t in written] if ('sim', key) in fin['post'] else None
+                                      for k, key in (('nalive', 'n_alive'), ('newdeaths', 'new_deaths'))}))
     return lines, obs
 
 
@@ -540,6 +631,8 @@ def build_modset(cfg):
         else: raise HarnessError(r)
     pars = dict(n_agents=cfg['n_agents'], rand_seed=cfg.get('rand_seed', 1), verbose=0, unit=cfg.get('unit', 'year'), dt=cfg.get('dt', 1.0),
                 start=cfg.get('start', 2000), dur=cfg.get('dur', 8))
+    for k in ('pop_scale', 'total_pop'):
+        if cfg.get(k) is not None: pars[k] = cfg[k]
     if dem: pars['demographics'] = dem
     if dis: pars['diseases'] = dis
     if nets: pars['networks'] = nets
@@ -566,6 +659,10 @@ MODSET_FIXED = [
            demographics=[dict(type='deaths', death_rate=150, time=dict(start=2004, stop=2009))], requesters=[dict(kind='intervention', every=15, time=dict(start=2003))]),
     modset('requesters on their own finer / coarser clocks, Births on a finer clock', dur=8, demographics=[dict(type='births', birth_rate=80, time=dict(dt=0.5))],
            requesters=[dict(kind='intervention', every=14, time=dict(dt=0.5)), dict(kind='connector', every=18, offset=3, time=dict(dt=2.0))]),
+    modset('the sim stands for 2.5 people per agent: the finalised series are in people and must still balance', pop_scale=2.5, dur=8, networks=[dict(type='random')],
+           diseases=[dict(type='sir', p_death=0.5)], demographics=[dict(type='births', birth_rate=80), dict(type='deaths', death_rate=150)], requesters=[dict(kind='intervention', every=15)]),
+    modset('total_pop that is not a multiple of n_agents (non-dyadic factor), deaths requested by a connector only', total_pop=617, dur=8,
+           demographics=[dict(type='births', birth_rate=60)], requesters=[dict(kind='connector', every=9)]),
 ]
 
 
@@ -587,8 +684,10 @@ def gen_modset_cfg(rng):
         if r['kind'] != 'function': r['time'] = own(0.3)
     if not reqs and not any(d['type'] == 'deaths' for d in dem) and not any(d['type'] == 'sir' for d in dis):
         reqs = [dict(kind=rng.choice(REQUESTER_KINDS), every=10, offset=0, time=None)]
-    return dict(modset=True, n_agents=rng.choice([40, 70]), rand_seed=rng.randint(1, 99), unit='year', dt=dt, start=2000, dur=rng.choice([6, 8]),
-                demographics=dem, diseases=dis, networks=nets, requesters=reqs)
+    cfg = dict(modset=True, n_agents=rng.choice([40, 70]), rand_seed=rng.randint(1, 99), unit='year', dt=dt, start=2000, dur=rng.choice([6, 8]),
+               demographics=dem, diseases=dis, networks=nets, requesters=reqs)
+    scale_kw(rng, cfg)
+    return cfg
 
 
 # ---------------------------------------------------------------------------
@@ -739,6 +838,7 @@ class Tracker:
         self.late_pending = set()
         self.late_site = {}        # uid -> (requesting site, 'prenatal' | 'born') of a request made after death resolution
         self.fails = []
+        self.flow = {}             # ti -> (agents created, agents that died) between the recordings of step ti-1 and ti, counted on the arrays
         self.loop_order = True     # the calls come in the order of the simulation loop (sims, structured sequences)
         self.step_calls = []       # People phases seen since the last finish_step
 
@@ -843,6 +943,7 @@ class Tracker:
                          (f' ({len(unrec)} of them were requested after the death-resolution phase of step {ti - 1} by {sites} and stamped {ti - 1})' if latecause else ''),
                          **sig)
             self.late_pending -= getattr(self, 'flipped_now', set())
+            self.flow[ti] = (self.created, self.died)
             self.last_nalive = na; self.created = 0; self.died = 0; self.died_now = 0; self.flipped_now = set()
         elif op == 'finish_step':
             if self.loop_order:
@@ -880,6 +981,7 @@ def oracle_sim(cfg, extra_module=None):
     for e in rec['hist']:
         tr.call(e)
         if len(tr.fails) > 12: break
+    tr.fails += finalize_fails(rec, tr)
     # end-of-run cross-check against the published results
     sim = rec['sim']
     dead_total = int(np.count_nonzero(~np.asarray(sim.people.alive.raw[:sim.people.uid.len_used]))) - sum(1 for x in rec['start']['alive'][1][:rec['start']['n']] if x == 'F')
